@@ -1,13 +1,16 @@
 import Driver.Graph
+import Driver.Coll
 /-! `godi_model`: reads the line protocol on stdin, prints one observation per line. -/
 open Driver
 
 structure St where
   g : Godi.Graph.Graph := {}
+  coll : CollD.St := {}
 
 def stepLine (s : St) (line : String) : St × String :=
   match words line with
   | "g" :: rest => let (g, o) := GraphD.step s.g rest; ({ s with g := g }, o)
+  | "c" :: rest => let (c, o) := CollD.step s.coll rest; ({ s with coll := c }, o)
   | "#" :: _ => (s, "#")
   | [] => (s, "")
   | _ => (s, "bad-op")
